@@ -211,7 +211,7 @@ def build(atoms, bonds):
     return m
 
 
-def instantiate(rec, rng, metal_choices=None, metal_charge=None):
+def instantiate(rec, rng, metal_choices=None, metal_charge=None, forced=None):
     """one molecule drawn from a pattern record: elements chosen from the lists, D / x / z constraints filled with substituents.
     Returns (atoms, bonds, fillers) or None."""
     atoms, bonds, fillers = {}, [], []
@@ -219,7 +219,7 @@ def instantiate(rec, rng, metal_choices=None, metal_charge=None):
     for n, row in rec['adj']:
         for m, orders, _ir, _st in row:
             if (m, n) not in order:
-                order[(n, m)] = rng.choice(orders)
+                order[(n, m)] = (forced or {}).get(('bond', n, m)) or rng.choice(orders)
     for n, a in rec['atoms']:
         k = a['kind']
         if k == 'metal':
@@ -227,7 +227,7 @@ def instantiate(rec, rng, metal_choices=None, metal_charge=None):
         elif k == 'any':
             z = 8 if a['charge'] < 0 else 7 if a['charge'] > 0 else rng.choice([6, 6, 6, 7, 8])
         elif k[0] == 'list':
-            z = rng.choice(k[1])
+            z = (forced or {}).get(('atom', n)) or rng.choice(k[1])
         else:
             z = k[1]
         ch = a['charge']
@@ -331,6 +331,46 @@ def pattern_instances(ctx, per_rule):
             if not got:
                 missing.append(f'{tname}[{idx}]')
     return out, missing
+
+
+def grid_instances(ctx, cap=40):
+    """thorough tier: for every rule, every combination of the element alternatives of its list atoms and of the order
+    alternatives of its bonds (capped per rule; the cap is recorded) - so each alternative a pattern mentions is drawn."""
+    tabs = real_tables()
+    out, capped = [], 0
+    for tname, recs in _state['std'].items():
+        for idx, rec in enumerate(recs):
+            axes = []
+            for n, a in rec['atoms']:
+                if a['kind'] != 'metal' and a['kind'] != 'any' and a['kind'][0] == 'list' and len(a['kind'][1]) > 1:
+                    axes.append([(('atom', n), z) for z in a['kind'][1]])
+            seen = set()
+            for n, row in rec['adj']:
+                for m, orders, _ir, _st in row:
+                    if (m, n) not in seen and len(orders) > 1:
+                        seen.add((n, m))
+                        axes.append([(('bond', n, m), o) for o in orders])
+            if not axes:
+                continue
+            combos = list(itertools.product(*axes))
+            if len(combos) > cap:
+                capped += 1
+                combos = ctx.rng.sample(combos, cap)
+            for ci, combo in enumerate(combos):
+                for attempt in range(6):
+                    inst = instantiate(rec, ctx.rng, forced=dict(combo))
+                    if inst is None:
+                        continue
+                    try:
+                        mol = build(inst[0], inst[1])
+                        ok = next(tabs[tname][idx][0].get_mapping(mol, automorphism_filter=False), None) is not None
+                    except Exception:
+                        continue
+                    if ok:
+                        out.append((f'{tname}[{idx}]#grid{ci}', mol, inst[2], (tname, idx)))
+                        break
+    _state['grid_capped'] = capped
+    return out
 
 
 def overlap_instances(ctx, per_rule=1):
@@ -470,6 +510,10 @@ def molecule_pool(ctx):
     _state['missing_instances'] = missing
     pool += inst
     pool += overlap_instances(ctx, 1 if ctx.quick else 3)
+    if not ctx.quick:
+        g = grid_instances(ctx)
+        pool += g
+        ctx.notes.append(f'rule alternatives grid: {len(g)} molecules ({_state.get("grid_capped", 0)} rules capped at 40 combinations)')
     for s, m in molgen.handmade():
         pool.append((f'hand:{s}', m, [], None))
     for s in EXTRA:
@@ -511,6 +555,11 @@ def molecule_pool(ctx):
             edges = molgen.ring_assembly(rng, 3) if rng.random() < 0.5 else rng.choice(_small_graphs())
             m = molgen.decorate(rng, list(edges), hetero=0.4, multiple=0.3, charge=0.15)
         except Exception:
+            continue
+        if any(a.charge and a.atomic_number in (6, 14) for _, a in m.atoms()):
+            # carbon / silicon ions at random positions are outside the generator's domain (they reach the rule tables only
+            # through the documented spellings and the rule patterns); see design/C14.md
+            ctx.dist('pool:rand-skipped-carbon-ion')
             continue
         pool.append((f'rand[{i}]', m, [], None))
     return pool
@@ -1010,11 +1059,13 @@ def oracle(ints, op, ft, rng=None, renumber=True):
             fails.append(('idempotent-rebuilt', f'raised {type(e).__name__}: {e}'))
     if renumber and rng is not None and not fails and op != 'tautomers':
         m2, mapping = molgen.renumber(rng, m0s)
+        pair = (wire.mol_to_ints(m0s), wire.mol_to_ints(m2))
         try:
             apply_op(op, m2, ft)
             a = m0s.copy()
             apply_op(op, a, ft)
             if not same_structure(a, m2):
+                _state['last_renumber'] = pair
                 fails.append(('renumbering', f'{canon(a)} vs {canon(m2)} (mapping {mapping})'))
         except Exception as e:
             fails.append(('renumbering', f'renumbered input raised {type(e).__name__}: {e}'))
@@ -1044,6 +1095,21 @@ def signature(ints, op, check, ft=False):
                 return ['C14/standardize/idempotent/overlap-skip']
             if r2:
                 return [f'C14/standardize/idempotent/{x}' for x in sorted(set(r2))]
+            m1, _ = wire.ints_to_mol(ints, calc=True)
+            m1.standardize(fix_tautomers=ft)
+            if m1.fix_resonance():
+                # the rules created a dipole that the resonance step (which runs *before* the rules) neutralises next time
+                return ['C14/standardize/idempotent/resonance-after-rules']
+        except Exception:
+            pass
+    if op == 'canonicalize' and check == 'idempotent-rebuilt':
+        try:
+            m1, _ = wire.ints_to_mol(ints, calc=True)
+            m1.clean_stereo()
+            m1.canonicalize(fix_tautomers=ft)
+            lg = molgen.rebuild(m1).canonicalize(fix_tautomers=ft, logging=True)
+            if any(t == 'recharged' for _m, _r, t in lg):
+                return ['C14/canonicalize/idempotent-rebuilt/recharged']
         except Exception:
             pass
     if op in ('standardize', 'canonicalize', 'fix_resonance') and check in ('renumbering', 'idempotent-rebuilt', 'idempotent'):
@@ -1112,9 +1178,13 @@ def renumber_culprits(ints, seeds=6):
         if r >= 0 and text in names and text not in fired:
             fired.append(text)
     out = []
+    pairs = []
+    lr = _state.get('last_renumber')
+    if lr and lr[0] == wire.mol_to_ints(m0):
+        pairs.append(wire.ints_to_mol(lr[1], calc=True)[0])
     for seed in range(seeds):
-        rng = random.Random(seed)
-        m2, _mp = molgen.renumber(rng, m0)
+        pairs.append(molgen.renumber(random.Random(seed), m0)[0])
+    for m2 in pairs:
         a, b = m0.copy(), m2.copy()
         a.fix_resonance()
         b.fix_resonance()
